@@ -1,0 +1,261 @@
+//go:build verif
+
+package termemu
+
+// Verification hooks. Compiled only with `-tags verif`; add-only: nothing in
+// the regular build refers to this file.
+
+import (
+	"bufio"
+	"fmt"
+)
+
+// VerifTerm is a terminal without the background read loop. The parser is
+// stepped in the caller's goroutine so that a panic can be recovered and
+// attributed to a step.
+type VerifTerm struct {
+	t  *terminal
+	br *bufio.Reader
+	gr *GraphemeReader
+}
+
+// VerifNew builds a loop-less terminal over the given backend. With grid set
+// both buffers are cell-grid buffers, otherwise the default span buffers.
+// The reader chain is the one ptyReadLoop builds.
+func VerifNew(f Frontend, backend Backend, mode TextReadMode, grid bool) *VerifTerm {
+	t := newTerminal(f, backend, mode)
+	if t == nil {
+		return nil
+	}
+	if grid {
+		t.mainScreen = newGridScreen(t.frontend)
+		t.altScreen = newGridScreen(t.frontend)
+	}
+	br := bufio.NewReader(t.backend)
+	return &VerifTerm{t: t, br: br, gr: NewGraphemeReaderWithMode(br, t.textReadMode)}
+}
+
+// Terminal returns the public interface of the wrapped terminal.
+func (v *VerifTerm) Terminal() Terminal { return v.t }
+
+// Step runs one ptyReadOne. A panic is returned as a string.
+func (v *VerifTerm) Step() (err error, panicked string) {
+	defer func() {
+		if r := recover(); r != nil {
+			panicked = fmt.Sprint(r)
+			if panicked == "" {
+				panicked = "panic"
+			}
+		}
+	}()
+	err = v.t.ptyReadOne(v.gr)
+	return err, ""
+}
+
+// Buffered is the number of bytes fetched from the backend that the parser
+// has not consumed yet (bufio buffer + token reader buffer).
+func (v *VerifTerm) Buffered() int { return v.br.Buffered() + v.gr.Buffered() }
+
+// ReaderBufLen is the current capacity of the token reader's buffer.
+func (v *VerifTerm) ReaderBufLen() int { return len(v.gr.data) }
+
+// SendMouse calls the unexported SendMouseRaw, recovering a panic.
+func (v *VerifTerm) SendMouse(btn MouseBtn, press bool, mods MouseFlag, x, y int) (err error, panicked string) {
+	defer func() {
+		if r := recover(); r != nil {
+			panicked = fmt.Sprint(r)
+			if panicked == "" {
+				panicked = "panic"
+			}
+		}
+	}()
+	return v.t.SendMouseRaw(btn, press, mods, x, y), ""
+}
+
+// EncodeKey exposes encodeKey (no write).
+func (v *VerifTerm) EncodeKey(ev KeyEvent) []byte { return v.t.encodeKey(ev) }
+
+// TryLock probes the terminal lock; it releases it again when it got it.
+func (v *VerifTerm) TryLock() bool {
+	if v.t.TryLock() {
+		v.t.Unlock()
+		return true
+	}
+	return false
+}
+
+// VerifStyleRaw exposes the packed representation of a Style.
+func VerifStyleRaw(s Style) [3]uint32 { return [3]uint32{s.fg, s.bg, s.underlineColor} }
+
+// VerifStyleFromRaw builds a Style from its packed representation.
+func VerifStyleFromRaw(r [3]uint32) Style { return Style{fg: r[0], bg: r[1], underlineColor: r[2]} }
+
+// VerifRun is one stored run of a span-buffer row.
+type VerifRun struct {
+	Style [3]uint32
+	Text  string
+	Rune  rune
+	Width int
+}
+
+// VerifCell is one screen cell. Cont marks a further cell of the wide
+// character to its left. Bad marks a cell produced by a run whose stored
+// width and text disagree.
+type VerifCell struct {
+	Text  string
+	Width int
+	Cont  bool
+	Style [3]uint32
+	Rune  rune // grid buffer: the rune array entry
+}
+
+// VerifRow is one row of a buffer.
+type VerifRow struct {
+	Cached int        // span buffer: cached row width
+	Runs   []VerifRun // span buffer: stored runs
+	Cells  []VerifCell
+}
+
+// VerifScreen is the state of one buffer.
+type VerifScreen struct {
+	Grid           bool
+	W, H           int
+	CX, CY         int
+	SX, SY         int
+	Top, Bot       int
+	Wrap           bool
+	Style          [3]uint32
+	Rows           []VerifRow
+	TextModeOfSpan TextReadMode
+}
+
+// VerifSnap is the state of the terminal.
+type VerifSnap struct {
+	OnAlt       bool
+	Screens     [2]VerifScreen // main, alternate
+	KbdFlags    [2]int
+	KbdStack    [2][]int
+	ViewFlags   []bool
+	ViewInts    []int
+	ViewStrings []string
+}
+
+// Snap copies the terminal state. The caller must not run Step concurrently.
+func (v *VerifTerm) Snap() VerifSnap {
+	t := v.t
+	s := VerifSnap{
+		OnAlt:       t.onAltScreen,
+		KbdFlags:    [2]int{t.keyboardMain.flags, t.keyboardAlt.flags},
+		KbdStack:    [2][]int{append([]int(nil), t.keyboardMain.stack...), append([]int(nil), t.keyboardAlt.stack...)},
+		ViewFlags:   append([]bool(nil), t.viewFlags...),
+		ViewInts:    append([]int(nil), t.viewInts...),
+		ViewStrings: append([]string(nil), t.viewStrings...),
+	}
+	s.Screens[0] = verifSnapScreen(t.mainScreen)
+	s.Screens[1] = verifSnapScreen(t.altScreen)
+	return s
+}
+
+func verifSnapScreen(sc screen) VerifScreen {
+	switch s := sc.(type) {
+	case *spanScreen:
+		out := VerifScreen{
+			W: s.size.X, H: s.size.Y,
+			CX: s.cursorPos.X, CY: s.cursorPos.Y,
+			SX: s.savedCursorPos.X, SY: s.savedCursorPos.Y,
+			Top: s.topMargin, Bot: s.bottomMargin,
+			Wrap: s.autoWrap, Style: VerifStyleRaw(s.style),
+			TextModeOfSpan: s.textMode,
+		}
+		for y := range s.lines {
+			out.Rows = append(out.Rows, verifSnapSpanRow(&s.lines[y], s.textMode))
+		}
+		return out
+	case *gridScreen:
+		out := VerifScreen{
+			Grid: true,
+			W:    s.size.X, H: s.size.Y,
+			CX: s.cursorPos.X, CY: s.cursorPos.Y,
+			SX: s.savedCursorPos.X, SY: s.savedCursorPos.Y,
+			Top: s.topMargin, Bot: s.bottomMargin,
+			Wrap: s.autoWrap, Style: VerifStyleRaw(s.style),
+		}
+		for y := range s.chars {
+			var row VerifRow
+			for x := range s.chars[y] {
+				row.Cells = append(row.Cells, VerifCell{
+					Text:  s.cellText[y][x],
+					Width: int(s.cellWidth[y][x]),
+					Cont:  s.cellCont[y][x],
+					Style: VerifStyleRaw(s.cellStyles[y][x]),
+					Rune:  s.chars[y][x],
+				})
+			}
+			out.Rows = append(out.Rows, row)
+		}
+		return out
+	}
+	return VerifScreen{}
+}
+
+func verifSnapSpanRow(line *spanLine, mode TextReadMode) VerifRow {
+	row := VerifRow{Cached: line.width}
+	for _, sp := range line.spans {
+		st := VerifStyleRaw(sp.Style)
+		row.Runs = append(row.Runs, VerifRun{Style: st, Text: sp.Text, Rune: sp.Rune, Width: sp.Width})
+		if sp.Text == "" {
+			for i := 0; i < sp.Width; i++ {
+				row.Cells = append(row.Cells, VerifCell{Text: string(sp.Rune), Width: 1, Style: st})
+			}
+			continue
+		}
+		// Expand the text with the package's own tokeniser.
+		text := []byte(sp.Text)
+		idx := 0
+		state := -1
+		for idx < len(text) {
+			cluster, consumed, width, newState, ok := stepTextCluster(text[idx:], state, mode)
+			if !ok || consumed <= 0 {
+				// incomplete tail: one cell holding the rest
+				row.Cells = append(row.Cells, VerifCell{Text: string(text[idx:]), Width: 1, Style: st})
+				break
+			}
+			if width < 1 {
+				// zero-width cluster joins the previous cell of this run
+				if n := len(row.Cells); n > 0 {
+					k := n - 1
+					for k > 0 && row.Cells[k].Cont {
+						k--
+					}
+					row.Cells[k].Text += string(cluster)
+				}
+			} else {
+				row.Cells = append(row.Cells, VerifCell{Text: string(cluster), Width: width, Style: st})
+				for i := 1; i < width; i++ {
+					row.Cells = append(row.Cells, VerifCell{Cont: true, Style: st})
+				}
+			}
+			idx += consumed
+			state = newState
+		}
+	}
+	return row
+}
+
+// VerifSplitSpan exposes splitSpan for direct differential checks.
+func VerifSplitSpan(r VerifRun, off int, mode TextReadMode) (l, rr, wide VerifRun) {
+	conv := func(s Span) VerifRun {
+		return VerifRun{Style: VerifStyleRaw(s.Style), Text: s.Text, Rune: s.Rune, Width: s.Width}
+	}
+	a, b, c := splitSpan(Span{Style: VerifStyleFromRaw(r.Style), Text: r.Text, Rune: r.Rune, Width: r.Width}, off, mode)
+	return conv(a), conv(b), conv(c)
+}
+
+// VerifRuneWidth is the cell width the rune-mode tokeniser assigns to r.
+func VerifRuneWidth(r rune) int {
+	_, _, w, _, ok := stepRuneCluster([]byte(string(r)), -1)
+	if !ok {
+		return 1
+	}
+	return w
+}
